@@ -495,7 +495,10 @@ class SymInt:
         return hash(cur().concretize(self))
 
     def __bool__(self):
-        return cur().branch((self != 0).e)
+        r = self != 0
+        if isinstance(r, bool):
+            return r
+        return cur().branch(r.e)
 
     def __float__(self):
         raise EngineError("float() of a symbolic integer")
@@ -995,8 +998,10 @@ class Explorer:
     symbolic = True
 
     def __init__(self, rlimit=30_000_000, max_paths=100000, max_decisions=3000, max_violations=1,
-                 deadline_s=None, known=None, seed=0, cap=None):
+                 deadline_s=None, known=None, seed=0, cap=None, collision_free=False):
         self.cap = cap
+        self.collision_free = collision_free
+        self.query_timeout_ms = 120000
         self.solver = z3.Solver()
         self.rlimit = rlimit
         self.max_paths = max_paths
@@ -1034,6 +1039,7 @@ class Explorer:
         if extra is not None:
             assumptions.append(extra)
         self.solver.set("rlimit", self.rlimit)
+        self.solver.set("timeout", self.query_timeout_ms)
         t = time.time()
         r = self.solver.check(*assumptions)
         self.stats.solver_s += time.time() - t
